@@ -9,6 +9,7 @@ CONSTANTS
   FaultKinds = {"cut", "relay", "remote"}
   Scenarios = {"local", "remote"}
   AlReader = FALSE
+  AlOffsets = {0}
   A_CreateBeforePoll = TRUE
   KF_CancelNotComplete = FALSE
   DumpLocal = "local_vectors.ndjson"
